@@ -12,6 +12,7 @@ SUBST = SUBST_COMMON + [
 D = 'src/de.rs'
 MA = 'impl de::Deserializer for YamlDeserializer/fn deserialize_map/'
 P34 = ['C03', 'C04', 'C01']
+EN = 'impl de::Deserializer for YamlDeserializer/fn deserialize_enum/'
 
 EVENTS_TRAIT = events_trait()
 
@@ -273,4 +274,59 @@ ITEMS = location_types() + budget_types() + error_types() + [
                      ensures=[('all_batches_used', 'merges@.len() == 0')],
                      decreases='merges@.len()'),
          }),
+    # ---- cursor discipline of the typed deserializer (C05): each leaf helper either fails or moves the
+    # cursor by exactly one event of the kind it names
+    dict(src=D, path='struct YamlDeserializer'),
+    dict(src=D, path='impl YamlDeserializer/fn take_scalar_event', props=['C05', 'C01'],
+         rewrites=[(r'value\.into_owned\(\)', 'cowstr_into_owned(value)', None, 'R8')],
+         ensures=[('C05:consumes_exactly_one_scalar', '''match r {
+                Ok((text, tag, loc)) => old(self).ev.rest().len() > 0 && match old(self).ev.rest()[0] {
+                        Ev::Scalar { value, tag: t, location, .. } => text@ == value@ && tag == t && loc == location,
+                        _ => false }
+                    && final(self).ev.rest() == old(self).ev.rest().skip(1),
+                Err(_) => true }'''),
+                  ('config_kept', 'final(self).cfg == old(self).cfg && final(self).in_key == old(self).in_key')],
+         canaries=['C05:consumes_exactly_one_scalar']),
+    dict(src=D, path='impl YamlDeserializer/fn take_scalar_cow_event', props=['C05', 'C01'],
+         ensures=[('C05:consumes_exactly_one_scalar', '''match r {
+                Ok((text, tag, loc)) => old(self).ev.rest().len() > 0 && match old(self).ev.rest()[0] {
+                        Ev::Scalar { value, tag: t, location, .. } => text == value && tag == t && loc == location,
+                        _ => false }
+                    && final(self).ev.rest() == old(self).ev.rest().skip(1),
+                Err(_) => true }''')],
+         canaries=['C05:consumes_exactly_one_scalar']),
+    dict(src=D, path='impl YamlDeserializer/fn expect_seq_start', props=['C05', 'C01'],
+         ensures=[('C05:consumes_exactly_one_sequence_start', '''r is Ok ==> old(self).ev.rest().len() > 0
+                && old(self).ev.rest()[0] is SeqStart && final(self).ev.rest() == old(self).ev.rest().skip(1)''')],
+         canaries=['C05:consumes_exactly_one_sequence_start']),
+    dict(src=D, path='impl YamlDeserializer/fn expect_map_start', props=['C05', 'C01'],
+         ensures=[('C05:consumes_exactly_one_mapping_start', '''r is Ok ==> old(self).ev.rest().len() > 0
+                && old(self).ev.rest()[0] is MapStart && final(self).ev.rest() == old(self).ev.rest().skip(1)''')],
+         canaries=['C05:consumes_exactly_one_mapping_start']),
+    dict(src=D, path='impl YamlDeserializer/fn peek_anchor_id', props=['C05', 'C01'],
+         ensures=[('peeks_without_consuming', '''r is Ok ==> final(self).ev.rest() == old(self).ev.rest() && r->Ok_0 == (
+                if old(self).ev.rest().len() == 0 { None } else { match old(self).ev.rest()[0] {
+                    Ev::Scalar { anchor, .. } => if anchor == 0 { None } else { Some(anchor) },
+                    Ev::SeqStart { anchor, .. } => if anchor == 0 { None } else { Some(anchor) },
+                    Ev::MapStart { anchor, .. } => if anchor == 0 { None } else { Some(anchor) },
+                    _ => None } })''')],
+         canaries=['peeks_without_consuming']),
+    # scalar_is_nullish: string comparisons are std; its result is an uninterpreted function of text and style here
+    dict(src='src/parse_scalars.rs', path='fn scalar_is_nullish', trusted=True, props=[],
+         ensures=[('function_of_text_and_style', 'r == spec_nullish(value@, *style)')]),
+    dict(src=D, path=EN + 'struct VA'),
+    dict(src=D, path=EN + 'impl VA/fn expect_map_end', props=['C05', 'C01'],
+         ensures=[('C05:closes_exactly_one_mapping_or_fails', '''r is Ok ==> old(self).ev.rest().len() > 0
+                && old(self).ev.rest()[0] is MapEnd && final(self).ev.rest() == old(self).ev.rest().skip(1)''')],
+         canaries=['C05:closes_exactly_one_mapping_or_fails']),
+    dict(src=D, path=EN + 'impl de::VariantAccess for VA/fn unit_variant', id='VA::unit_variant',
+         impl_header="impl<'de, 'e> VA<'de, 'e>", props=['C05', 'C01'],
+         rewrites=[(r'scalar_is_nullish\(s, style\)', 'scalar_is_nullish(s.as_str(), style)', None, 'R15')],
+         ensures=[('C05:unit_variant_accepts_only_nothing_or_a_null', '''r is Ok ==> ({
+                let s = old(self.ev).rest();
+                if !self.map_mode { true }
+                else if s.len() > 0 && s[0] is MapEnd { true }
+                else { s.len() >= 2 && s[1] is MapEnd && match s[0] {
+                        Ev::Scalar { value, style, .. } => spec_nullish(value@, style), _ => false } } })''')],
+         canaries=['C05:unit_variant_accepts_only_nothing_or_a_null']),
 ]
